@@ -375,6 +375,20 @@ func (j *totalJudge) oneRound() {
 		if !bytes.Equal(in, z.B) {
 			j.fail("Unmarshal*/Compose", "input-modified", "input slice unchanged", "modified")
 		}
+		{
+			// structured coefficients c*10^k (+ a few leading zero bytes): the shapes Compose can fold
+			c := new(big.Int).SetUint64(z.X.Lo | 1)
+			c.Mul(c, ref.Pow10(int(z.Y.Lo%120)))
+			if z.I&1 == 1 {
+				c.Add(c, ref.One)
+			}
+			coef := append(make([]byte, int(z.Y.Hi%3)), c.Bytes()...)
+			snap := append([]byte(nil), coef...)
+			j.do("Decimal.Compose", 0, func() { _ = d.Compose(0, z.I&2 == 2, coef, int32(-int(z.Y.Lo%120)+int(z.X.Hi%5)-2)) })
+			if !bytes.Equal(coef, snap) {
+				j.fail("Decimal.Compose", "input-modified", "coefficient slice unchanged", "modified")
+			}
+		}
 		j.do("json.Unmarshal", 0, func() {
 			var box jsonBox
 			_ = json.Unmarshal(in, &box)
